@@ -246,14 +246,23 @@ def drive_hypothesis(ctx: ShardContext, idx: int, eng: Engine) -> None:
     n = ctx.share(eng.budget(ctx.tier))
     strat = eng.strategy(ctx.tier)
 
+    deadline = float(os.environ.get("VT_DEADLINE", "0") or 0)
+
     @hypothesis.seed(ctx.engine_seed(idx))
     @hyp_settings(n, shrink=False)
     @given(strat)
     def collect(case):
+        # the wall clock is a budget only: what was not reached is reported as not explored, never as a verdict
+        if deadline and time.time() > deadline:
+            raise _Stop()
         out = guarded_check(eng, case)
         ctx.record(eng.name, case, out)
 
-    collect()
+    try:
+        collect()
+    except _Stop:
+        ctx.stats.notes.setdefault("time_budget_reached", collections.Counter())[eng.name] += 1
+        return
     # Thorough tier: shrink the first few unknown signatures with Hypothesis itself.
     if ctx.tier == "thorough" and eng.shrink:
         for sig in [s for s, v in ctx.stats.violations.items() if v["engine"] == eng.name][:3]:
@@ -285,9 +294,14 @@ def drive_hypothesis(ctx: ShardContext, idx: int, eng: Engine) -> None:
 
 
 def drive_enumerate(ctx: ShardContext, idx: int, eng: Engine) -> None:
+    deadline = float(os.environ.get("VT_DEADLINE", "0") or 0)
     for i, case in enumerate(eng.cases(ctx.tier)):
         if i % ctx.nshards != ctx.shard:
             continue
+        if deadline and time.time() > deadline:
+            ctx.stats.notes.setdefault("time_budget_reached", collections.Counter())[eng.name] += 1
+            ctx.stats.exhaustive[eng.name] = False
+            return
         out = guarded_check(eng, case)
         ctx.record(eng.name, case, out)
     ctx.stats.exhaustive[eng.name] = bool(eng.exhaustive)
@@ -396,7 +410,10 @@ def parent(modname: str, tier: str, seed: int, only: str | None, nshards_opt: in
     procs = []
     try:
         base = [sys.executable, str(VERIF / "run.py"), modname.upper(), "--tier", tier]
-        env = dict(os.environ, VERIF_SEED=str(seed), PYTHONHASHSEED="0", VT_TMP=str(tmp))
+        _limit = float(os.environ.get("VT_TIME_LIMIT") or getattr(mod, "TIME_LIMIT", {}).get(tier, 3600 if tier == "quick" else 12 * 3600))
+        # shards stop generating at 80 % of the limit and report what they covered
+        env = dict(os.environ, VERIF_SEED=str(seed), PYTHONHASHSEED="0", VT_TMP=str(tmp),
+                   VT_DEADLINE=str(t0 + 0.8 * _limit))
         rp = tmp / "regress.json"
         procs.append(("regress", subprocess.Popen(base + ["--regress", "--out", str(rp)], env=env,
                                                   stdout=subprocess.PIPE, stderr=subprocess.PIPE)))
@@ -407,6 +424,8 @@ def parent(modname: str, tier: str, seed: int, only: str | None, nshards_opt: in
             procs.append((i, subprocess.Popen(cmd, env=env, stdout=subprocess.PIPE,
                                               stderr=subprocess.PIPE)))
         limit = getattr(mod, "TIME_LIMIT", {}).get(tier, 3600 if tier == "quick" else 12 * 3600)
+        if os.environ.get("VT_TIME_LIMIT"):
+            limit = float(os.environ["VT_TIME_LIMIT"])
         failed = []
         for tag, p in procs:
             try:
